@@ -28,6 +28,8 @@ type progCtx struct {
 	AnOut  drive.Outcome
 	Gen    map[string]drive.GenResult
 	OutDir string
+	// CleanGo is filled by the c01 oracle: Go targets whose output type-checks in the package
+	CleanGo map[string]bool
 }
 
 // inProcOracles are run inside the worker, where go/types objects are at hand.
